@@ -7,6 +7,8 @@ package main
 
 import (
 	"crypto/x509"
+	"crypto/x509/pkix"
+	"encoding/asn1"
 	"fmt"
 	"math/big"
 	"time"
@@ -127,6 +129,10 @@ func runC14(r *Run) {
 		k := k
 		jobs = append(jobs, func() { e.twoIssuers(k) })
 		jobs = append(jobs, func() { e.sameIssuerName(k) })
+		for shape := 0; shape < 3; shape++ {
+			shape := shape
+			jobs = append(jobs, func() { e.twoIssuersRDN(k, shape) })
+		}
 		jobs = append(jobs, func() { e.nextUpdateLookups(ca, k) })
 		jobs = append(jobs, func() { e.zeroDefault(ca, k) })
 		for _, f := range []string{"garbage", "http500", "drop", "wrong", "stranger"} {
@@ -275,6 +281,51 @@ func (e *c14Env) twoIssuers(k int) {
 	}
 	if o3.Result != "revoked" || !o4.Hit || o4.Result != "good" || o1.Result != "good" {
 		r.Violate("C14 two-issuers-history", fmt.Sprintf("A:%s B(down):%s B:%s A(down):%s hit=%v", o1.Result, o2.Result, o3.Result, o4.Result, o4.Hit), nil)
+	}
+}
+
+// twoIssuersRDN: two CAs whose names consist of the same attributes and differ only in the order of the RDNs (shape 0), in
+// their grouping into multi-valued RDNs (shape 1) or in a repeated attribute (shape 2): different issuers, the same serial.
+func (e *c14Env) twoIssuersRDN(k, shape int) {
+	r := e.r
+	atv := func(oid asn1.ObjectIdentifier, v string) pkix.AttributeTypeAndValue {
+		return pkix.AttributeTypeAndValue{Type: oid, Value: v}
+	}
+	oidC, oidO, oidCN := asn1.ObjectIdentifier{2, 5, 4, 6}, asn1.ObjectIdentifier{2, 5, 4, 10}, asn1.ObjectIdentifier{2, 5, 4, 3}
+	c, o, cn := atv(oidC, "DE"), atv(oidO, fmt.Sprintf("C14 rdn %d-%d", k, shape)), atv(oidCN, "Issuing CA")
+	var na, nb pkix.RDNSequence
+	switch shape {
+	case 0:
+		na = pkix.RDNSequence{{c}, {o}, {cn}}
+		nb = pkix.RDNSequence{{cn}, {o}, {c}}
+	case 1:
+		na = pkix.RDNSequence{{c}, {o}, {cn}}
+		nb = pkix.RDNSequence{{c}, {cn, o}}
+	default:
+		na = pkix.RDNSequence{{c}, {o}, {cn}}
+		nb = pkix.RDNSequence{{c}, {o}, {atv(oidCN, "Other CA")}, {cn}}
+	}
+	caA := NewCA(CAOpts{EC: true, RawSubject: mustMarshal(na)})
+	caB := NewCA(CAOpts{EC: true, RawSubject: mustMarshal(nb)})
+	serial := big.NewInt(int64(930000 + 10*k + shape))
+	pa, pb := fmt.Sprintf("/c14/r/%d/%d/a", k, shape), fmt.Sprintf("/c14/r/%d/%d/b", k, shape)
+	la := caA.IssueLeaf(LeafOpts{CN: "shared subject", Serial: serial, OCSP: []string{e.rsp.URL(pa)}})
+	lb := caB.IssueLeaf(LeafOpts{CN: "shared subject", Serial: serial, OCSP: []string{e.rsp.URL(pb)}})
+	v := e.val(true, "1h")
+	sa, _ := e.setStatus(caA, pa, la.Cert, ocsp.Good, time.Time{})
+	o1, p1 := e.look(v, true, "1h", la.Cert, [][]*x509.Certificate{{la.Cert, caA.Cert}}, sa, []*x509.Certificate{caA.Cert}, -1)
+	sb := e.setDown(pb)
+	o2, p2 := e.look(v, true, "1h", lb.Cert, [][]*x509.Certificate{{lb.Cert, caB.Cert}}, sb, []*x509.Certificate{caB.Cert}, -1)
+	sb, _ = e.setStatus(caB, pb, lb.Cert, ocsp.Revoked, time.Time{})
+	o3, p3 := e.look(v, true, "1h", lb.Cert, [][]*x509.Certificate{{lb.Cert, caB.Cert}}, sb, []*x509.Certificate{caB.Cert}, -1)
+	e.emit([]c14Op{p1, p2, p3})
+	r.Eval(fmt.Sprintf("two-issuers-rdn/%d/%d", k, shape), true)
+	r.Count("two-issuers-rdn")
+	if o2.Hit || o2.Result != "error" {
+		r.Violate("C14 entry-shared-across-issuers", fmt.Sprintf("shape %d: certificate of issuer B (same serial, name made of the same attributes as issuer A's in another arrangement) answered %s hit=%v from A's entry", shape, o2.Result, o2.Hit), nil)
+	}
+	if o1.Result != "good" || o3.Result != "revoked" {
+		r.Violate("C14 two-issuers-history", fmt.Sprintf("rdn shape %d: A:%s B(down):%s B:%s", shape, o1.Result, o2.Result, o3.Result), nil)
 	}
 }
 
